@@ -651,7 +651,10 @@ impl rustc_driver::Callbacks for Cb {
             if is_test { ".test" } else { "" }
         );
         let _ = std::fs::create_dir_all(&outdir);
-        std::fs::write(&fname, out).expect("write facts");
+        // atomic: readers never see a half-written file
+        let tmp = format!("{fname}.tmp{}", std::process::id());
+        std::fs::write(&tmp, out).expect("write facts");
+        std::fs::rename(&tmp, &fname).expect("rename facts");
         rustc_driver::Compilation::Continue
     }
 }
